@@ -37,6 +37,11 @@ def infer_returns(model):
                 out.append((tname, v.elts[1].value, guard, st))
             elif isinstance(st, ast.If):
                 g = _guard_const(model, f, st.test)
+                if g is None and any(isinstance(r, ast.Return) and isinstance(r.value, ast.Tuple) and len(r.value.elts) == 2 and
+                                     isinstance(r.value.elts[1], ast.Constant) and r.value.elts[1].value is False for r in st.body):
+                    # the guard of a non-repeatable verdict is not a literal `re.fullmatch(CONST, text)` (precompiled
+                    # patterns, helper predicates ...): this syntactic rule does not apply to that spelling
+                    raise AnalysisError(f"guard at line {st.lineno} is not a literal regex test: {norm_text(st.test)[:60]}")
                 walk(st.body, g)
                 walk(st.orelse, None if not (len(st.orelse) == 1 and isinstance(st.orelse[0], ast.If)) else None)
             elif isinstance(st, (ast.For, ast.While)):
